@@ -14,7 +14,7 @@ PROP = dict(
           "descending components, unique indexes on scalars, arrays and composites, created before or after the data); creates, updates and deletes go to both unless the unique index rejects them; generated filters (scalar comparisons, _in/_nin, "
           "_any/_all/_none on the arrays, _or, paths into the JSON field) and _count run on both and must agree; every accepted / rejected write and every array-filter answer is compared with the model of Index/Multi.lean; "
           "(c) the crdt engine's replicas carry indexes on name and age: at every quiescent point of its generated multi-replica histories (remote merges, concurrent writes, deletes) every index-backed equality lookup "
-          "(every value present, and null) is compared with the documents holding that value"),
+          "(every value present, and null) is compared with the documents holding that value; idxm: `patch` operations put later indexes on a later collection version, `age` has a default value and its nulls are stored explicitly; query: every comparison with a null and a non-null operand on a non-leading field of each composite index behind a pinned leading field"),
     assumptions=[
         "limit/offset without an ordering that makes the sequence unique select an implementation-defined slice: such queries are compared through the ordered-sequence oracle only",
         "relations under indexes are covered by C09's engine; JSON filters are compared between the twin collections only (the model evaluates scalar and array conditions); merged remote commits are covered by the crdt engine's lookups only",
